@@ -58,6 +58,13 @@ BREAKING = [
     ('parse-checkvalue-enum-any-entry', 'C20', MAIN + 'chardata.rs', r'if \*version_mask & \(file_version as u32\) != 0 \{\n(\s*)return true;', 'if *version_mask != 0 {\n\\1return true;', 'enum value accepted in any version'),
     ('namecmp-drop-final', 'C14', MAIN + 'element.rs', r'\n        \.then_with\(\|\| name1\.cmp\(name2\)\)', '', 'a01 and a1 compare Equal'),
     ('verify-end-strict-ok', 'C08', MAIN + 'parser.rs', r'self\.optional_error\(ArxmlParserError::AdditionalDataError\)\?;\n            Ok\(\(\)\)', 'if !self.strict { self.optional_error(ArxmlParserError::AdditionalDataError)?; }\n            Ok(())', 'trailing data accepted in strict mode'),
+    ('conflict-choice-arm-dropped', 'C08', MAIN + 'parser.rs', r'ContentMode::Choice => \{\s*self\.optional_error\(ArxmlParserError::ElementChoiceConflict', 'ContentMode::Bag => { self.optional_error(ArxmlParserError::ElementChoiceConflict', 'two alternatives of a choice accepted in strict mode'),
+    ('multiplicity-only-one', 'C08', MAIN + 'parser.rs', r'if multiplicity != ElementMultiplicity::Any \{\s*// there is a conflict', 'if multiplicity == ElementMultiplicity::One { // there is a conflict', 'repeated ZeroOrOne element accepted'),
+    ('multiplicity-choice-skipped', 'C08', MAIN + 'parser.rs', r'if datatype_mode == ContentMode::Sequence \|\| datatype_mode == ContentMode::Choice', 'if datatype_mode == ContentMode::Sequence', 'repeated single-occurrence element inside a choice accepted'),
+    ('spec-checked-any-version', 'C08', MAIN + 'parser.rs', r'self\.check_version\(\s*version_mask,', 'self.check_version(u32::MAX,', 'element of another version accepted in strict mode'),
+    ('conflict-first-pair-skipped', 'C08', MAIN + 'parser.rs', r'if elem_indices\.is_empty\(\) \|\| \(elem_indices == new_elem_indices\)', 'if elem_indices.len() < 2 || (elem_indices == new_elem_indices)', 'choice conflict not checked for top-level alternatives'),
+    ('common-group-stops-early', 'C18', SPEC + 'lib.rs', r'SubElement::Group\(groupid\) => \{\n(\s*)result = \*groupid;\n', 'SubElement::Group(groupid) => {\n\\1if prefix_len == 0 { result = *groupid; }\n', 'find_common_group names the outermost group only'),
+    ('container-mode-own-type', 'C18', SPEC + 'lib.rs', r'if element_indices\.len\(\) < 2 \{\n(\s*)// length == 1', 'if element_indices.len() < 3 {\n\\1// length == 1', 'container mode of a grouped element read from the type'),
 ]
 
 HARMLESS = [
